@@ -25,7 +25,7 @@ TEXT_ATOM["q q"] = "Q"
 PREC = {"+": 4, "-": 4, "*": 5, "/": 5, ":": 6}
 
 # Impl-layer switches: the values that describe /repo's current tree
-IMPL_FLAGS = {"HashBroken": False, "DivByTerms": True, "MulShortcut": True, "CtorDedup": True}
+IMPL_FLAGS = {"HashBroken": False, "DivByTerms": True, "MulShortcut": False, "CtorDedup": True, "TermBySet": True}
 
 
 def render(e, ctx=0, right=False):
